@@ -2,10 +2,10 @@ META = {
     'level': 'exploration',
     'engine': 'E2+E3',
     'technique': 'offline exactly-once check over the merged log of lifecycle-hook calls and DB-API statements + commit observer with hook edits applied to the reference model',
-    'level_text': 'Generated session histories run on diagrams whose entities define all six lifecycle hooks; every hook call and every INSERT/UPDATE/DELETE seen at the DB-API boundary is logged from one counter. Offline: every statement on an entity table is preceded by exactly one matching before_* call for that object (since the previous statement on it) and followed by exactly one after_* call before the next commit. Hook bodies are drawn from noop / read / modify another attribute / create a log object; their edits are applied to the reference model, so the raw-connection commit observer and the read observers verify that they are saved in the same flush. Held on the generated histories only.',
+    'level_text': 'Generated session histories run on diagrams whose entities define all six lifecycle hooks; every hook call and every INSERT/UPDATE/DELETE seen at the DB-API boundary is logged from one counter. Offline: every statement on an entity table is preceded by exactly one matching before_* call for that object (since the previous statement on it) and followed by exactly one after_* call before the next commit. Hook bodies are drawn from noop / read / modify another attribute of the object / create a log object (which has hooks of its own) / modify another loaded object / add or remove a many-to-many link (before_* hooks) and noop / read / bounded modification of the object or of another object (after_* hooks, which makes the flush run another round); their edits are applied to the reference model, so the raw-connection commit observer and the read observers verify that they are saved in the same flush. Held on the generated histories only.',
     'level_note': 'Trusted: statement-to-object matching by table name and primary key parsed from the SQL text pony emits for single-column explicit integer keys; the reference model of vlib/hmodel.py; SQLite only. A before_* call that is followed by no statement (nothing changed) is not judged: the property quantifies over objects written.',
     'rule': 'one case = one generated history with a random hook-body assignment; distinct = distinct (diagram, hook modes, operation list); non-trivial = at least 3 data statements matched with their hooks',
-    'assumptions': ['SQLite only', 'entities with single-column explicit integer primary keys', 'hook bodies: noop, read, modify, create'],
+    'assumptions': ['SQLite only', 'entities with single-column explicit integer primary keys', 'hook bodies: noop, read, modify, create, modify_other, link; after hooks: noop, read, modify_once, modify_other_once (at most 2 after-hook edits per pony call)'],
     'design_ref': 'DESIGN.md 3 C33',
 }
 SHARDS = {'quick': 4, 'thorough': 16}
@@ -15,7 +15,8 @@ OPS = {'quick': 30, 'thorough': 50}
 import re
 
 TEMPLATES = ['m2m', 'o2m_req', 'o2m_req_nocascade', 'o2o_opt', 'o2o_req', 'o2o_req_cascade', 'self', 'inherit']
-MODES = ['noop', 'read', 'modify', 'create']
+MODES = ['noop', 'read', 'modify', 'create', 'modify_other', 'link']
+AFTER_MODES = ['noop', 'read', 'modify_once', 'modify_other_once']
 WEIGHTS = {'create': 12, 'set': 16, 'setmany': 6, 'add': 8, 'remove': 5, 'assign': 2, 'clear': 1, 'delete': 8,
            'flush': 8, 'commit': 5, 'rollback': 1, 'end': 4, 'abort': 1,
            'read': 4, 'coll': 4, 'bypk': 2, 'bykey': 1, 'selectall': 2, 'selectcmp': 1, 'count': 1, 'todict': 1}
@@ -28,12 +29,16 @@ DEL = re.compile(r'^DELETE FROM "(\w+)"\s+WHERE "id" = \?', re.S)
 def hooked_spec(spec):
     import copy
     s = copy.deepcopy(spec)
-    for e in s['entities']:
-        if not e.get('base'):
-            e['attrs'].append({'name': 'hk', 'kind': 'scalar', 'type': 'int', 'required': False})
+    roots = [e for e in s['entities'] if not e.get('base')]
+    for e in roots:
+        e['attrs'].append({'name': 'hk', 'kind': 'scalar', 'type': 'int', 'required': False})
+        # a many-to-many relationship owned by the hooks (generated operations never touch it)
+        e['attrs'].append({'name': 'hklinks', 'kind': 'set', 'target': 'HLog', 'reverse': 'on_' + e['name']})
     s['entities'].append({'name': 'HLog', 'pk': ['id'], 'attrs': [
         {'name': 'id', 'kind': 'scalar', 'type': 'int', 'required': True},
-        {'name': 'src', 'kind': 'scalar', 'type': 'str', 'required': False, 'nullable': True}]})
+        {'name': 'src', 'kind': 'scalar', 'type': 'str', 'required': False, 'nullable': True},
+        {'name': 'hk', 'kind': 'scalar', 'type': 'int', 'required': False}] +
+        [{'name': 'on_' + e['name'], 'kind': 'set', 'target': e['name'], 'reverse': 'hklinks'} for e in roots]})
     s['name'] = spec['name'] + '+hooks'
     return s
 
@@ -46,12 +51,23 @@ class HookState(object):
         self.effects = []           # ('set', pony obj, value) | ('create', pony obj, pk, src)
         self.counter = 1000
         self.errors = []
+        self.after_budget = 0       # after-hook edits left in the current pony call (bounds the flush rounds)
+
+
+def pick_other(eng, obj, entity=None):
+    """another live object of the session that the harness knows (deterministic: smallest handle id)"""
+    for oid in sorted(eng.h):
+        p = eng.h[oid]
+        if p is obj or not isinstance(oid, int) or oid >= 100000 or oid not in eng.working.objs: continue
+        if p._status_ in ('marked_to_delete', 'deleted', 'cancelled'): continue
+        if entity is not None and eng.working.objs[oid].ent not in eng.rules.ents[entity].subclasses: continue
+        return oid, p
+    return None, None
 
 
 def make_hooks(spec, st):
     hooks = {}
     for e in spec['entities']:
-        if e['name'] == 'HLog': continue
         d = {}
         for hook in ('before_insert', 'before_update', 'before_delete', 'after_insert', 'after_update', 'after_delete'):
             def f(obj, hook=hook):
@@ -59,7 +75,9 @@ def make_hooks(spec, st):
                 cls = type(obj)
                 table = cls._root_._table_
                 st.log.append((next(eng.rec.seq), hook, table if isinstance(table, str) else table[-1], obj._pkval_, cls.__name__))
-                mode = st.modes.get((cls.__name__, hook), 'noop')
+                if cls.__name__ == 'HLog': mode = 'modify' if hook == 'before_insert' else 'noop'   # the log object has hooks of its own
+                else: mode = st.modes.get((cls.__name__, hook), 'noop')
+                before = hook.startswith('before')
                 try:
                     if mode == 'read':
                         obj.hk
@@ -67,10 +85,44 @@ def make_hooks(spec, st):
                         st.counter += 1
                         obj.hk = st.counter
                         st.effects.append(('set', obj, st.counter))
-                    elif mode == 'create' and hook in ('before_insert', 'before_update', 'before_delete'):
+                    elif mode == 'create' and before:
                         st.counter += 1
                         h = eng.cls['HLog'](id=st.counter, src='%s:%s' % (hook, obj._pkval_))
                         st.effects.append(('create', h, st.counter, '%s:%s' % (hook, obj._pkval_)))
+                    elif mode == 'modify_other' and hook in ('before_insert', 'before_update'):
+                        oid, other = pick_other(eng, obj)
+                        if other is not None:
+                            st.counter += 1
+                            other.hk = st.counter
+                            st.effects.append(('set', other, st.counter)); eng.c('hooks.modified_other_object')
+                    elif mode == 'link' and hook in ('before_insert', 'before_update'):
+                        me = eng._peek_oid(obj)
+                        if isinstance(me, int) and me in eng.working.objs:
+                            cur = sorted(eng.working.objs[me].vals.get('hklinks', ()))
+                            st.counter += 1
+                            if cur and st.counter % 3 == 0 and eng.h.get(cur[0]) is not None:
+                                obj.hklinks.remove(eng.h[cur[0]])
+                                st.effects.append(('link', me, 'hklinks', cur[0], 'remove'))
+                            elif cur and st.counter % 3 == 1:
+                                # link to a log object that already exists (that of another object if there is one)
+                                toid = next((o for o in sorted(eng.h) if isinstance(o, int) and o >= 100000 and o not in cur and o in eng.working.objs), None)
+                                if toid is not None:
+                                    obj.hklinks.add(eng.h[toid])
+                                    st.effects.append(('link', me, 'hklinks', toid, 'add'))
+                            else:
+                                h = eng.cls['HLog'](id=st.counter, src='%s:%s' % (hook, obj._pkval_))
+                                st.effects.append(('create', h, st.counter, '%s:%s' % (hook, obj._pkval_)))
+                                obj.hklinks.add(h)
+                                st.effects.append(('link', me, 'hklinks', 100000 + st.counter, 'add'))
+                            eng.c('hooks.m2m_link_changed')
+                    elif mode in ('modify_once', 'modify_other_once') and hook in ('after_insert', 'after_update') and st.after_budget > 0:
+                        target = obj
+                        if mode == 'modify_other_once': target = pick_other(eng, obj)[1]
+                        if target is not None and target._status_ not in ('marked_to_delete', 'deleted', 'cancelled'):
+                            st.after_budget -= 1
+                            st.counter += 1
+                            target.hk = st.counter
+                            st.effects.append(('set', target, st.counter)); eng.c('hooks.after_hook_edits')
                 except Exception as ex:
                     st.errors.append((hook, type(ex).__name__, str(ex)[:120]))
                     raise
@@ -91,11 +143,17 @@ def apply_effects(eng, st):
             oid = eng._peek_oid(ef[1])      # the object need not be one of the harness handles
             for state in states:
                 if isinstance(oid, int) and oid in state.objs: state.objs[oid].vals['hk'] = ef[2]
+        elif ef[0] == 'link':
+            _, me, n, toid, how = ef
+            for state in states:
+                if me in state.objs and toid in state.objs:
+                    try: (state.coll_add if how == 'add' else state.coll_remove)(me, n, [toid])
+                    except hmodel.ModelRefuse: eng.c('hooks.model_refused_link')
         else:
             _, h, pk, src = ef
             oid = 100000 + pk
             for state in states:
-                if oid not in state.objs: state.objs[oid] = hmodel.Obj(oid, 'HLog', {'id': pk, 'src': src})
+                if oid not in state.objs: state.create(oid, 'HLog', {'id': pk, 'src': src})
             eng.h[oid] = h; eng.rev[id(h)] = oid
     del st.effects[:]
 
@@ -142,14 +200,21 @@ def check_log(eng, st, tables):
             n = before.pop(key, 0)
             if n != 1: viol.append({'kind': 'statement_with_%d_before_hooks' % n, 'stmt': kind, 'table': table, 'pk': pk, 'seq': seq})
             else: matched += 1
-            if after.get(key): viol.append({'kind': 'second_statement_before_after_hook', 'stmt': kind, 'table': table, 'pk': pk, 'seq': seq})
-            after[key] = 1
+            # a hook that runs a query (e.g. reads a not yet loaded attribute) makes pony flush again from inside the
+            # after-hook loop: a second statement for the same object may then precede the after_* call that belongs
+            # to the first one.  Every statement must still be followed by one after_* call of its own: count them.
+            if after.get(key): eng.c('hooks.nested_flush_statement_before_pending_after_hook')
+            after[key] = after.get(key, 0) + 1
         elif typ == 'after':
-            n = after.pop(key, 0)
+            # the round that called this object's before_* hook is over; if no statement followed (no column changed)
+            # that before_* call is not judged and must not be counted against a statement of the next round
+            before.pop(key, None)
+            n = after.get(key, 0)
             # n == 0: after_* for an object whose statement was skipped because nothing changed - the property
             # quantifies over objects written, so this is counted, not judged
             if n == 0: eng.c('hooks.after_without_statement')
-            elif n != 1: viol.append({'kind': 'after_hook_count', 'stmt': kind, 'table': table, 'pk': pk, 'seq': seq})
+            elif n == 1: del after[key]
+            else: after[key] = n - 1
         elif typ == 'boundary':
             if kind == 'commit':
                 for k in list(after):
@@ -165,17 +230,21 @@ def check_log(eng, st, tables):
     return viol, matched
 
 
-def run_history(spec, modes, workdir, rng, n_ops, ops=None):
+def run_history(spec, modes, workdir, rng, n_ops, ops=None, force_load=False, name='hk'):
     from vlib import hist, hops
+    import random as _random
     st = HookState(modes)
     hs = hooked_spec(spec)
     counts = {}
-    eng = hist.Engine(hs, workdir, name='hk', count=counts, hooks=make_hooks(hs, st))
+    eng = hist.Engine(hs, workdir, name=name, count=counts, hooks=make_hooks(hs, st), force_load=force_load)
     st.eng = eng
+    # classification replays (deviation rule of the known unloaded-reference finding) must run with the same hooks
+    eng.replayer = lambda ops2, fl: run_history(spec, modes, workdir, _random.Random(0), 0, ops=ops2, force_load=fl, name='hkcls')[0].reports
     eng.gen_exclude = {'HLog'}
-    eng.gen_exclude_attrs = {'hk'}      # the hook-owned attribute is written by hooks only
+    eng.gen_exclude_attrs = {'hk', 'hklinks'}      # the hook-owned attribute is written by hooks only
     orig_step = eng.step
     def step(op):
+        st.after_budget = 2
         out = orig_step(op)
         apply_effects(eng, st)
         # every harness step is a quiescent point: hooks and their statements happen inside one pony call
@@ -208,7 +277,7 @@ def run_history(spec, modes, workdir, rng, n_ops, ops=None):
             hops.run_history(eng, ops)
     finally:
         eng.close()
-    tables = set(eng.meta['tables'].values()) - {eng.meta['tables'].get('HLog')}
+    tables = set(eng.meta['tables'].values())
     viol, matched = check_log(eng, st, tables)
     return eng, st, ops, viol, matched, counts
 
@@ -227,7 +296,7 @@ def run(ctx):
         modes = {}
         for e in spec['entities']:
             for hook in ('before_insert', 'before_update', 'before_delete', 'after_insert', 'after_update', 'after_delete'):
-                modes[(e['name'], hook)] = rng.choice(MODES)
+                modes[(e['name'], hook)] = rng.choice(MODES if hook.startswith('before') else AFTER_MODES)
         try:
             eng, st, ops, viol, matched, counts = run_history(spec, modes, workdir, rng, OPS[ctx.tier])
         except Exception as e:
